@@ -23,10 +23,12 @@ PROPS = {
         title='Field arithmetic is exact modular arithmetic on every representation',
         design_ref='DESIGN.md section 4 / C14',
         bounded=[('field', ['c14_'])],
-        vspecs=['contracts/C14/gl_core.vspec', 'contracts/C14/gl_ext.vspec'],
+        vspecs=['contracts/C14/gl_core.vspec', 'contracts/C14/gl_ext.vspec', 'contracts/C14/gl_inverse.vspec'],
         level_text='Unbounded deductive proof (Verus/Z3) that each base-field kernel extracted from field/src/goldilocks_field.rs returns the '
                    'mathematically correct residue for every 64/96/128/160-bit representation, with every unchecked `assume`, overflow, '
-                   'underflow and debug assertion turned into a discharged obligation. Proof is the right level: the failing operand '
+                   'underflow and debug assertion turned into a discharged obligation; the extension-field product kernels (ext2/4/5) equal the schoolbook product modulo the '
+                   'binomial; squaring, exp_power_of_2 and try_inverse: None exactly for the representations of zero, otherwise exactly x^(P-2) mod P through the fixed '
+                   '72-multiplication chain (that this is the inverse is Fermat, assumed). Proof is the right level: the failing operand '
                    'patterns have probability ~2^-32 under sampling.',
         level_note='Trusted: Verus+Z3; the 2-instruction x86 asm model (portable twin verified without it); std overflowing_add/sub specs; '
                    'rustc compiling normalised and source text alike. Not covered: AVX2/AVX-512 packed fields, secp256k1, sqrt.',
